@@ -35,6 +35,7 @@ DEFAULTS = dict(
     p_in_lit_left=0.0,   # `literal in [..]` with repeated / variable elements
     p_spread_edb=0.0,    # fact table with pairwise different values in one Num column
     avoid_d11=True,      # known finding C01 D11 (see gen.cmp); False re-derives it
+    p_unnest_chain=0.0,  # x in L, l == List{z :- z in [x, ..]}, y in l
     p_recif=0.0,         # a variable bound to a record-valued if-then-else, read >= 2 times
     # --- C08 / C09 profile (all default to "off": the rng stream of other checks is unchanged)
     # p_aggx (above): aggregating EXPRESSION `Op{e :- body}` at any expression position
@@ -1108,6 +1109,24 @@ class Gen(object):
             body = self.body(env, o['nest_depth'])
             if self.chance(o['p_or']):
                 body.append(self.disjunction(env))
+            if o['p_unnest_chain'] and self.chance(o['p_unnest_chain']):
+                # x in [..], l == List{z :- z in [x, x + k]}, y in l : an unnesting that
+                # depends on another one through an aggregating expression
+                xv = self.newvar(env, 'N')
+                zv = self.newvar(dict(env), 'N')        # local to the combine
+                inner = ('in', ('var', zv), ('list', (('var', xv), ('bin', '+', ('var', xv),
+                                                                  self.lit_of('N')))))
+                lv_ = self.newvar(env, 'LN')
+                yv = self.newvar(env, 'N')
+                self.used |= {xv, zv, lv_, yv}
+                chain = [('in', ('var', xv), ('list', tuple(self.lit_of('N') for _ in
+                                                            range(rng.randint(1, 3))))),
+                         ('agg', lv_, rng.choice(['List', 'Set']), ('var', zv), (inner,),
+                          rng.choice([0, 1, 2, 3])),
+                         ('in', ('var', yv), ('var', lv_))]
+                self.roots |= {xv}
+                body.extend(chain)
+                self.labels.add('unnest_chain')
             recv = None
             if o['p_recif'] and env and self.chance(o['p_recif']):
                 # v == (if c then {a:.., b:..} else {a:.., b:..}), then v.a / v.b read in a
